@@ -486,7 +486,7 @@ func primCases(o hx.Opts, emit func(string), oracle string) {
 	}
 
 	// 2. random
-	nSched, nSmall, nBig := 300, 500, 60
+	nSched, nSmall, nBig := 600, 1200, 120
 	if o.Tier == "thorough" {
 		nSched, nSmall, nBig = 5000, 20000, 3000
 	}
